@@ -544,7 +544,8 @@ func handwritten() []hwShape {
 		{"optional-on-every-kind", head + "message Sub {}\nenum E {\n  E_UNSPECIFIED = 0;\n}\nmessage Foo {\n  optional string a = 1;\n  optional Sub b = 2;\n  optional E c = 3;\n  optional bytes d = 4;\n  Sub e = 5;\n  oneof pick {\n    string f = 6;\n    Sub g = 7;\n  }\n  optional int64 h = 8;\n}\n"},
 		{"json-names", head + "message Foo {\n  string by_user_id = 1 [json_name = \"byUserID\"];\n  string plain_name = 2;\n  string x = 3 [json_name = \"X\"];\n}\n"},
 		{"nested-and-shadowing", head + "message Status {}\nmessage Foo {\n  enum Status {\n    STATUS_UNSPECIFIED = 0;\n  }\n  message Inner {\n    Status s = 1;\n    hw.v1.Status top = 2;\n  }\n  Status nested = 1;\n  hw.v1.Status top = 2;\n  Inner inner = 3;\n}\n"},
-		// built-in options (deprecated = true) and reserved statements are outside the property's quantifier (compiled
+		{"real-oneof-between-fields", head + "message Sub {}\nmessage Foo {\n  string before = 1;\n  oneof pick {\n    string a = 2;\n    Sub b = 3;\n  }\n  string after = 4;\n  oneof second {\n    string c = 5;\n  }\n  string last = 6;\n}\n"},
+		// built-in options (deprecated = true), reserved statements and /* block */ comments are outside the property's quantifier (compiled
 		// j5s files and the repository's own protos use neither): the printer spells the former as an extension and drops the latter
 	}
 }
